@@ -23,6 +23,10 @@ META = {
 AREAS = ["parameters_a", "parameters_b", "parameters_c", "conditions", "directives", "nesting", "component_id", "common", "manifest_a", "manifest_b", "header", "sign1", "authentication", "encrypt", "textmap", "envelope_a", "envelope_b"]
 
 
+# obligations whose exhaustion costs more than ~4 CPU-minutes on the unchanged tree (measured): thorough tier only
+HEAVY = {"roundtrip_common_members3", "roundtrip_manifest_a_members3_uri0", "roundtrip_manifest_a_members3_uri1", "roundtrip_manifest_a_members3_uri2", "roundtrip_textmap_entries0", "roundtrip_encrypt_calg1", "roundtrip_encrypt_calg2"}
+
+
 def obligations(tier):
     from props.c02 import SPLITS
 
@@ -37,10 +41,19 @@ def obligations(tier):
                     for u in range(3):
                         obs.append(Ob(f"roundtrip_{a}_{sel}{i}_uri{u}", "E1", "h_roundtrip", {"area": a, "fix": {sel: i, "uri": u}}, 1200, f"area {a} ({sel}={i}, uri={u}): bytes reproduced, parse fixpoint, leaf fidelity", weight=100))
                     continue
+                if a == "encrypt":
+                    # split further on two structure flags (the union of the four parts is the area): each part is run twice when the
+                    # known finding F14 is hit (once to find it, once with its predicate assumed away)
+                    for nested in (0, 1):
+                        for rp in (0, 1):
+                            obs.append(Ob(f"roundtrip_{a}_{sel}{i}_n{nested}p{rp}", "E1", "h_roundtrip", {"area": a, "fix": {sel: i, "nested": nested, "rec_protected": rp}}, 1200, f"area {a} ({sel}={i}, nested={nested}, rec_protected={rp}): bytes reproduced, parse fixpoint, leaf fidelity", weight=100))
+                    continue
                 obs.append(Ob(f"roundtrip_{a}_{sel}{i}", "E1", "h_roundtrip", {"area": a, "fix": {sel: i}}, 1200, f"area {a} ({sel}={i}): bytes reproduced, parse fixpoint, leaf fidelity", weight=100))
         else:
             obs.append(Ob(f"roundtrip_{a}", "E1", "h_roundtrip", {"area": a}, 1200, f"area {a}: bytes reproduced, parse fixpoint, leaf fidelity", weight=100))
     obs.append(Ob("hierarchy_expansion", "E1", "h_hierarchy", {}, 1200, "envelope with an integrated dependency: parse with hierarchy expansion (json and yaml variants) then create reproduces the bytes", weight=100))
+    if tier == "quick":
+        obs = [o for o in obs if o.name not in HEAVY and not o.name.startswith(("roundtrip_encrypt_calg1", "roundtrip_encrypt_calg2"))]
     return obs
 
 
